@@ -483,10 +483,11 @@ class RangeNode(SyntaxNode):
                     e = sys.exc_info()[1]
                     return attach(query.error_query(e), self)
 
-            if start:
+            # Fields without an analyzer (e.g. BOOLEAN) take the text as is
+            if start and field.analyzer:
                 start = get_single_text(field, start, tokenize=False,
                                         removestops=False)
-            if end:
+            if end and field.analyzer:
                 end = get_single_text(field, end, tokenize=False,
                                       removestops=False)
 
